@@ -198,6 +198,13 @@ fn run_gcrace(tracer: &Tracer, rng: &mut StdRng, r: u64, tag: Value) {
     cfg.threads = 1;
     cfg.flush_after = 1;
     cfg.merge = "none".into();
+    // pause point: right after the victim's k-th file creation (runs 0,1 mod 4), or right before its
+    // k-th open_read (runs 2,3 mod 4; on a sorted index, where finalising a segment re-reads its
+    // temporary doc store)
+    let before_read = (r / 2) % 2 == 1;
+    if before_read {
+        cfg.sorted = pick(rng, &["v_asc", "v_desc"]).to_string();
+    }
     tracer.emit(json!({"ev":"reset","cfg":cfg.to_json(),"tag":tag}));
     let mut w = World::new_quiet(tracer, &cfg, false);
     install_sink(tracer, w.regs.clone(), None);
@@ -206,15 +213,16 @@ fn run_gcrace(tracer: &Tracer, rng: &mut StdRng, r: u64, tag: Value) {
         w.exec(&json!({"op":"add","id":id,"t":pick(rng, &["a","b"]),"v":id as i64}));
     }
     w.exec(&json!({"op":"commit"}));
-    // who is parked: a worker (even runs) or a merge thread (odd runs), at its k-th file creation
+    // who is parked: a worker (even runs) or a merge thread (odd runs)
     let victim = if r % 2 == 0 { "worker" } else { "merge" };
-    let k = 1 + (r / 2) % 6;
+    let k = if before_read { 1 + (r / 4) % 2 } else { 1 + (r / 4) % 6 };
     // (count, parked, release)
     let st = Arc::new((Mutex::new((0u64, false, false)), Condvar::new()));
     let st2 = st.clone();
     let vict = victim.to_string();
     w.dir.set_gate(Some(Arc::new(move |op: &vh::simdir::OpInfo, after: bool| {
-        if op.role.starts_with(&vict) && op.op == "open_write" && after && !op.path.ends_with(".lock") {
+        let here = if before_read { op.op == "open_read" && !after } else { op.op == "open_write" && after };
+        if op.role.starts_with(&vict) && here && !op.path.ends_with(".lock") {
             let (m, cv) = &*st2;
             let mut g = m.lock().unwrap();
             g.0 += 1;
@@ -258,7 +266,7 @@ fn run_gcrace(tracer: &Tracer, rng: &mut StdRng, r: u64, tag: Value) {
         tracer.emit(json!({"ev":"merge","ok":res.is_ok(),"sids":[],"obs":obs}));
     }
     w.dir.set_gate(None);
-    tracer.emit(json!({"ev":"schedule","name":format!("explicit GC while a {victim} thread is parked after its file creation #{k}"),"realised":realised}));
+    tracer.emit(json!({"ev":"schedule","name":if before_read { format!("explicit GC while a {victim} thread is parked before its open_read #{k} (sorted index)") } else { format!("explicit GC while a {victim} thread is parked after its file creation #{k}") },"realised":realised}));
     w.exec(&json!({"op":"commit"}));
     w.exec(&json!({"op":"wait_merges"}));
     w.exec(&json!({"op":"new_writer"}));
